@@ -347,7 +347,9 @@ def run(ctx, F):
         good = False
         if len(convs) == 1 and None not in convs:
             cb = prog.bodies.get(next(iter(convs)))
-            names = [mir.short(mir.callee_name(t) or "") for _, t in cb.calls()] if cb else []
-            errs = [1 for bi2, si, st in (cb.stmts() if cb else []) if st["k"] == "assign" and st["rv"]["k"] == "agg" and str(st["rv"].get("variant", "")) == "Err"]
+            # the converter and the math-module helpers it forwards to
+            cbs = [prog.bodies[d] for d in reach(next(iter(convs)), depth=2) if d in prog.bodies and (d == next(iter(convs)) or d.startswith("sass::functions::math"))] if cb else []
+            names = [mir.short(mir.callee_name(t) or "") for c_ in cbs for _, t in c_.calls()]
+            errs = [1 for c_ in cbs for bi2, si, st in c_.stmts() if st["k"] == "assign" and st["rv"]["k"] == "agg" and str(st["rv"].get("variant", "")) == "Err"]
             good = names.count("<Numeric>::is_no_unit") >= 2 and any(n.endswith("::is_compatible") for n in names) and bool(errs)
         (ctx.ok if good else ctx.fail)("F4-clamp-units", key, *([None] if good else [f"clamp fetches $number / $max through converters {sorted(map(str, convs))}; expected one converter that tests is_no_unit on both sides, is_compatible, and has an error exit", b.where()]))
